@@ -114,6 +114,16 @@ class RecWorld(World):
         ent["live"], ent["err"] = flow_flags(lay)
 
 
+def set_last(flow, content):
+    """the addon rewrites messages[-1]: in place, or (for every second content) by putting a NEW message object into
+    the list - after the message hook the layers forward whatever object the flow holds at that index"""
+    if len(content) % 2 == 0:
+        old = flow.messages[-1]
+        flow.messages[-1] = type(old)(old.from_client, content)
+    else:
+        flow.messages[-1].content = content
+
+
 def flow_flags(lay):
     f = getattr(lay, "flow", None)
     return (1, 0) if f is None else (1 if f.live else 0, 1 if f.error else 0)
@@ -151,7 +161,7 @@ def run_schedule(case):
             # flow.kill() inside any of the layer's hooks (only legal while the flow is killable)
             if h.flow.killable: h.flow.kill(); killed += 1; w.edit_repr = "kill"
         elif isinstance(h, (ltcp.TcpMessageHook, ludp.UdpMessageHook)) and edit is not None:
-            h.flow.messages[-1].content = unhx(edit)
+            set_last(h.flow, unhx(edit))
             w.edit_repr = edit
         w.resume(h)
 
@@ -254,7 +264,7 @@ def run_schedule_tunnel(case):
         if edit == "kill":
             if h.flow.killable: h.flow.kill(); killed += 1; w.edit_repr = "kill"
         elif isinstance(h, ltcp.TcpMessageHook) and edit is not None:
-            h.flow.messages[-1].content = unhx(edit); w.edit_repr = edit
+            set_last(h.flow, unhx(edit)); w.edit_repr = edit
         w.resume(h)
 
     def do_connect(err):
@@ -326,7 +336,10 @@ class Check(PropertyCheck):
                   "inject_is_spoofed_data, kill_in_message_hook_still_relays, kill_is_plain_completion), "
                   "half_close_propagated_while_other_direction_flows, half_close_emitted_once_quiescent (closes buffered behind "
                   "hooks), full_close_only_when_ending, tcp_ends_only_when_both_directions_closed, at_most_one_end_or_error, "
-                  "exactly_one_end_or_error, connect_failure_fires_error, nothing_relayed_after_end; the *_any_sockets variants "
+                  "exactly_one_end_or_error, connect_failure_fires_error, nothing_relayed_after_end, "
+                  "messages_handled_in_arrival_order + handled_is_prefix_of_arrivals (the message hooks fired, followed by the data "
+                  "still in the pause queue, are exactly the data/injected events delivered after Start, in delivery order: "
+                  "the replay of buffered events never reorders); the *_any_sockets variants "
                   "(relay exact, at most one end/error, nothing after end, no full close while relaying) also hold when "
                   "write_eof raises OSError on either socket (close_connection's except branch, initX). Proved by invariants "
                   "over the run, no bound on schedule length. Tie: step-by-step comparison with the real layers through world.py "
@@ -338,9 +351,8 @@ class Check(PropertyCheck):
                   "incl. the OSError branch of write_eof (a per-run environment flag per socket), Flow.kill()/killable as seen by "
                   "the layers. Liveness theorems (exactly_one_end_or_error, half_close_emitted_once_quiescent, "
                   "half_close_propagated...) are stated for live sockets: with a dead socket the ConnectionClosed that the "
-                  "cancelled handler still owes is an environment obligation the model does not assume. Not proved: that the "
-                  "recorded messages equal the accepted input events in arrival order as one whole-history statement (it is the "
-                  "step-local lemmas + the FIFO queue by construction; validated by the tie). The tie is differential, not a proof.")
+                  "cancelled handler still owes is an environment obligation the model does not assume. Arrival order is proved for flows with hooks (ignore=False); "
+                  "for ignore=True it is checked by the oracle and the tie only. The tie is differential, not a proof.")
     technique = "Lean 4 proof (invariants over all schedules of an executable state-machine model) + step-wise model-vs-code correspondence via world.py"
     rule = ("schedules over {data c/s, inject, close c/s (half/full), hook completion (keep/edit/kill), connect ok/err} for "
             "proto x flow/ignore x server pre-connected; exhaustive short schedules first, then random ones of length <= 16 "
@@ -474,6 +486,39 @@ class Check(PropertyCheck):
                 rec = [m[1] for m in obs["msgs"] if m[0] == fc]
                 if sent != rec:
                     fails.append(f"relay not exact towards {SIDE[tgt]}: sent {sent} recorded {rec}")
+        # (1b) "... in order per direction": the order is the order in which the peer sent (server.py delivered) the data.
+        #      flow.messages and the SendData sequence are produced by the same replay of buffered events, so comparing
+        #      them with each other (clause 1) cannot see a reordering inside the layer; compare with the ARRIVAL order.
+        #      Events that arrive after the relay has ended are dropped, so what is processed is a prefix of what arrived.
+        for src, tgt in (("c", "s"), ("s", "c")):
+            arrived = []
+            for st in obs["steps"]:
+                f = st["in"].split()
+                if f[0] == "data" and f[1] == src: arrived.append(f[2])
+                elif f[0] == "inject" and f[1] == ("1" if src == "c" else "0"): arrived.append(f[2])
+            if flow:
+                processed = [o.split(":")[3] for _, o in outs if o.startswith(f"H:msg:{src}:")]
+            else:
+                processed = [o.split(":")[2] for _, o in outs if o.startswith(f"S:{tgt}:")]
+            if processed != arrived[:len(processed)]:
+                fails.append(f"data from the {SIDE[src]} relayed out of order: arrived {arrived} processed {processed}")
+        #      and a peer's half-close must not overtake the data that peer sent before it (TCP)
+        if proto == "tcp":
+            for src, tgt in (("c", "s"), ("s", "c")):
+                k = next((i for i, st in enumerate(obs["steps"]) if st["in"].startswith(f"closed {src}")), None)
+                if k is None: continue
+                before = 0
+                for st in obs["steps"][:k]:
+                    f = st["in"].split()
+                    if (f[0] == "data" and f[1] == src) or (f[0] == "inject" and f[1] == ("1" if src == "c" else "0")): before += 1
+                seen = 0
+                for i, o in outs:
+                    if (o.startswith(f"H:msg:{src}:") if flow else o.startswith(f"S:{tgt}:")): seen += 1
+                    if i >= k and o == f"C:{tgt}:h":
+                        if seen < before:
+                            fails.append(f"half-close of the {SIDE[tgt]} overtook data the {SIDE[src]} sent before closing "
+                                         f"({seen} of {before} messages handled)")
+                        break
         # (4) "after which no further data is relayed for it" / (3) "exactly one of its end or error hooks"
         ends = [i for i, (_, o) in enumerate(outs) if o in ("H:end", "H:err")]
         if len(ends) > 1:
